@@ -213,14 +213,9 @@ def r2_cleanup_loop(run, w):
   truthy = lambda e: True if is_updates(e) else None
   after_q = set(cfg.normal_succ(un.id))
   leak = H.reach_assuming(cfg, after_q, truthy, removed=emit) & stops
-  # ... and nothing but their emptiness decides (assuming nothing, the only way past the emission
-  # is through a test of the updates themselves)
-  from ..guards import establishing_edges
-  empty_edges = establishing_edges(cfg, is_updates, False)
-  leak2 = H._reach_cut_edges(cfg, after_q, empty_edges, removed=emit) & stops
-  ok = bool(emit) and not leak and not leak2
+  ok = bool(emit) and not leak
   wit = None
-  if emit and (leak or leak2):
+  if emit and leak:
     wit = cfg.describe_path(cfg.path(un.id, stops, removed=emit, after=True))
   run.ob(R2, fn.qualname, "if updates: emit BulkUpdateRecord(ref_col.table_id, rows, values)",
          "whenever a column reports updates they are emitted (rows and values taken from the "
